@@ -31,6 +31,8 @@ func init() {
 		Rule{ID: "R06b", Doc: "who may release a connection", Floor: 2, Run: r06b},
 		Rule{ID: "R01g", Doc: "the decoder is given exactly the received bytes, never the rest of a recycled buffer (shared with C01)", Floor: 8, AllVariants: true, Run: r01g},
 		Rule{ID: "R20h", Doc: "pooled buffers are not handed to slice-retaining library calls and then released (shared with C20)", Floor: 5, Run: r20h},
+		Rule{ID: "R20e", Doc: "a struct copied into its new owner is not released through the original (shared with C20)", Floor: 1, Run: r20e},
+		Rule{ID: "R20i", Doc: "a decoded value handed to its record is not released again by the decoder (shared with C20)", Floor: 8, Run: r20i},
 	)
 }
 
